@@ -1153,7 +1153,7 @@ theorem step_circ_frame (w : World) (op : Op) (h : op.touchesCircuit = false) : 
       have h1 := preparePayload_fst w.pf e cmd cl il kw
       have hc : (preparePayload w.pf e cmd cl il kw).1.circ = e.circ := by
         rcases h1 with h1 | h1 <;> rw [h1] <;> rfl
-      split <;> (rename_i e' _ hp; rw [hp] at hc; simp [World.circ, he, hc])
+      split <;> (rename_i e' _ hp; rw [hp] at hc; simp only [World.circ, he, Option.map_some]; exact congrArg some hc)
   | newSampler ms =>
     simp only [step]
     split
@@ -1172,11 +1172,11 @@ theorem step_circ_frame (w : World) (op : Op) (h : op.touchesCircuit = false) : 
       have h1 := createJob_fst w.pf e s method
       have hc : (createJob w.pf e s method).1.circ = e.circ := by
         rcases h1 with h1 | h1 <;> rw [h1] <;> rfl
-      split <;> (rename_i e' _ hp; rw [hp] at hc; simp [World.circ, he, hc])
+      split <;> (rename_i e' _ hp; rw [hp] at hc; simp only [World.circ, he, Option.map_some]; exact congrArg some hc)
     · rfl
   | execute idx args kw =>
     rcases step_execute w idx args kw with ⟨-, h⟩ | ⟨j, its, -, -, h⟩ | ⟨j, its, err, -, -, -, h⟩ | ⟨j, its, pl, -, -, -, h⟩ <;>
-      (rw [h]; rfl)
+      first | (rw [h]; rfl) | rw [h]
 
 /-- … over every history made of such operations -/
 theorem exec_circ_frame (w : World) (ops : List Op) (h : ∀ op ∈ ops, op.touchesCircuit = false) :
